@@ -6,13 +6,14 @@ CONFIG = {
             'part / none of it, cached files byte-identical with the base mtime). (e) exhaustive small scope: every sequence of 2 (quick) / 3 '
             '(thorough) of 14 handle methods (Read, ReadAt x3, Write, WriteAt, WriteString, Seek x3, Truncate x2, Sync, Stat) on an O_RDWR handle '
             'from CacheOnReadFs.OpenFile, file cached / not cached. (fl) every combination of O_WRONLY/O_RDWR/O_CREATE/O_EXCL/O_TRUNC/O_APPEND on a '
-            'cached file, a base-only file and a new name. (r) 5-25 well-formed ops through the union only (structured generator: Mkdir, MkdirAll, '
+            'cached file, a base-only file and a new name. (m) one call (Chmod, Chtimes, Rename, Remove, RemoveAll, Mkdir, MkdirAll, Create, OpenFile, Open, Stat) '
+            'on a small tree the cache holds nothing / part / all of. (r) 5-25 well-formed ops through the union only (structured generator: Mkdir, MkdirAll, '
             'Create, OpenFile with write flags, Open, Remove, RemoveAll, Rename, Stat, Chmod, Chtimes, handle Read/ReadAt/Write/WriteAt/WriteString/'
             'Seek/Truncate/Stat/Close at all offsets, alternative path spellings). (u) unconstrained: model correspondence only. Oracle after every '
             'step through the union (Go side, independent of the model): every regular file of the cache layer exists in the base with identical '
             'bytes (layers-diverge); ReadFile of every base file through a CacheOnReadFs over independent copies of both layers equals the base '
             'bytes (read-differs-from-base); a call that succeeds on an independent copy of the base alone does not fail through the cache '
-            '(call-fails-through-cache). distinct = hash of the item list; non-trivial = a write/truncate through a handle from the union, or a '
+            '(call-fails-through-cache:<op>:<error class>). distinct = hash of the item list; non-trivial = a write/truncate through a handle from the union, or a '
             'successful mutator through the union',
     'trusted_base': ['the copies used by the oracle are rebuilt through the public MemMapFs API from a dump (paths, bytes, permission bits, mtimes)'],
     'assumptions': ['nothing writes to the base or the cache layer directly after the coherent start state'],
